@@ -571,6 +571,7 @@ type SpecSet struct {
 type CodecDecl struct {
 	Type, WF, Eq, By string
 	Pkg              string
+	MayReject        bool // the lemma has no "fails only if the reader fails" clause: the decoder may refuse (resolver, validating constructor)
 }
 
 type Lemma struct {
@@ -693,13 +694,18 @@ func (ss *SpecSet) ParseContractText(pkgPath, file, text string) error {
 			cur, curLoop = nil, nil
 		case "codec":
 			f := strings.Fields(rest)
+			mayReject := false
+			if len(f) == 8 && f[7] == "mayreject" {
+				mayReject = true
+				f = f[:7]
+			}
 			if len(f) != 7 || f[1] != "wf" || f[3] != "eq" || f[5] != "by" {
-				return fmt.Errorf("%s:%d: codec needs 'T wf P eq Q by F'", file, c.n)
+				return fmt.Errorf("%s:%d: codec needs 'T wf P eq Q by F [mayreject]'", file, c.n)
 			}
 			if ss.Codecs == nil {
 				ss.Codecs = map[string]*CodecDecl{}
 			}
-			ss.Codecs[pkgPath+"::"+f[0]] = &CodecDecl{Type: f[0], WF: f[2], Eq: f[4], By: f[6], Pkg: pkgPath}
+			ss.Codecs[pkgPath+"::"+f[0]] = &CodecDecl{Type: f[0], WF: f[2], Eq: f[4], By: f[6], Pkg: pkgPath, MayReject: mayReject}
 			cur, curLoop = nil, nil
 		case "sealed":
 			// closed-world interface: its implementations are exactly the types of the loaded repository packages that implement it
